@@ -7,6 +7,7 @@ Local Open Scope string_scope.
 
 Section RG.
   Variable tn : list call -> res (list tmsg).
+  Variable tns : list call -> res (list string * list emitted).
   Variable rd : string -> bool.
   Variable rd_nonempty : bool.
   Variable modifier : list msg -> list msg.
@@ -17,7 +18,7 @@ Section RG.
 
   Notation ops := (react_ops checker).
   Notation g := (react_graph rd_nonempty max_step).
-  Notation rexec := (react_exec tn rd rd_nonempty modifier visible md).
+  Notation rexec := (react_exec tn tns rd rd_nonempty modifier visible md).
 
   Definition E : chans rval := init_chans_v0 rval g.
 
@@ -38,13 +39,13 @@ Section RG.
     destruct rd_nonempty; cbv -[N.modulo]; rewrite Hc; vm_compute; reflexivity.
   Qed.
 
-  Lemma calc_tools_edge : forall rs d, rd_nonempty = false ->
-    calc_next rval ops g E [(kTools, RTools rs d)] = Ok (E, [(kChat, RTools rs d)]).
-  Proof. intros rs d Hr. unfold E. rewrite Hr. vm_compute. reflexivity. Qed.
+  Lemma calc_tools_edge : forall o rs d, rd_nonempty = false ->
+    calc_next rval ops g E [(kTools, RTools o rs d)] = Ok (E, [(kChat, RTools o rs d)]).
+  Proof. intros o rs d Hr. unfold E. rewrite Hr. vm_compute. reflexivity. Qed.
 
-  Lemma calc_tools_branch : forall rs d, rd_nonempty = true ->
-    calc_next rval ops g E [(kTools, RTools rs d)] = Ok (E, [(if d then kDirect else kChat, RTools rs d)]).
-  Proof. intros rs d Hr. unfold E. rewrite Hr. destruct d; vm_compute; reflexivity. Qed.
+  Lemma calc_tools_branch : forall o rs d, rd_nonempty = true ->
+    calc_next rval ops g E [(kTools, RTools o rs d)] = Ok (E, [(if d then kDirect else kChat, RTools o rs d)]).
+  Proof. intros o rs d Hr. unfold E. rewrite Hr. destruct d; vm_compute; reflexivity. Qed.
 
   Lemma calc_direct : forall m, rd_nonempty = true ->
     calc_next rval ops g E [(kDirect, RFinal m)] = Ok (E, [(kEND, RFinal m)]).
@@ -148,9 +149,9 @@ Section RG.
 
   Inductive task_rel : React.task -> key -> rval -> Prop :=
   | rel_chat_in : forall ms, task_rel (TChat ms) kChat (RIn ms)
-  | rel_chat_tools : forall rs d, task_rel (TChat (map tool_msg rs)) kChat (RTools rs d)
+  | rel_chat_tools : forall o rs d, task_rel (TChat (map tool_msg rs)) kChat (RTools o rs d)
   | rel_tools : forall chunks m, task_rel (TTools m) kTools (RModel chunks m)
-  | rel_direct : forall rs d, rd_nonempty = true -> task_rel (TDirect rs) kDirect (RTools rs d).
+  | rel_direct : forall o rs d, rd_nonempty = true -> task_rel (TDirect o) kDirect (RTools o rs d).
 
   Lemma task_rel_node : forall t k v, task_rel t k v -> is_react_node k = true.
   Proof.
@@ -163,6 +164,7 @@ End RG.
 (* ---- the main refinement: rd_nonempty is an ordinary variable here (case analysis on it) ---- *)
 Section Refine.
   Variable tn : list call -> res (list tmsg).
+  Variable tns : list call -> res (list string * list emitted).
   Variable rd : string -> bool.
   Variable modifier : list msg -> list msg.
   Variable visible : call -> bool.
@@ -173,8 +175,8 @@ Section Refine.
 
   Notation ops := (react_ops checker).
   Notation g rdn := (react_graph rdn max_step).
-  Notation rexec rdn := (react_exec tn rd rdn modifier visible md).
-  Notation aloop rdn := (agent_loop tn rd rdn modifier visible checker md).
+  Notation rexec rdn := (react_exec tn tns rd rdn modifier visible md).
+  Notation aloop rdn := (agent_loop tn tns rd rdn modifier visible checker md).
   Notation iter rdn := (iterate rval rstate ops (rexec rdn) sub sched_first [] (g rdn)).
 
   Lemma iter_S : forall rdn f ls,
@@ -187,7 +189,7 @@ Section Refine.
   Ltac fin := cbn [fst snd]; unfold trace_of, out_of; cbn [fst snd out_of_err e_class option_map];
               rewrite ?tr_pre_input, ?tr_pre_round, ?tr_pre_emit, ?tr_pre_fail, ?tr_pre_final; try reflexivity.
 
-  Lemma iterate_refines : forall rdn af n t k v sc msgs rdid ins rnds ems lg,
+  Lemma iterate_refines : forall rdn af n t k v sc msgs (rdid : option nat) ins rnds ems lg,
     (n + af = max_steps (g rdn))%nat ->
     task_rel rdn t k v ->
     trace_of (iter rdn (S af) (ls_of rdn max_step n k v (mkRS sc msgs rdid ins rnds ems) lg))
@@ -206,8 +208,8 @@ Section Refine.
       inversion Hrel; subst.
       + (* chat, the caller's input *)
         change (rexec rdn ?s [kChat] (RIn ms)) with (exec_chat modifier md ms s).
-        unfold exec_chat. cbn [rs_script rs_messages rs_rdid rs_inputs rs_rounds rs_emits].
-        cbn [agent_loop s_messages s_rdid].
+        unfold exec_chat. cbn [rs_script rs_messages rs_rd rs_inputs rs_rounds rs_emits].
+        cbn [agent_loop s_messages s_rd].
         destruct sc as [|[|content calls chunks] sc']; try (fin; fail).
         destruct (delivered md content calls chunks) as [m|] eqn:Hd; [|fin; fail].
         cbn [fst snd].
@@ -219,9 +221,9 @@ Section Refine.
           unfold ls_of in H1. rewrite H1. fin.
         * rewrite calc_chat_end by exact Hc. cbn [nlist_get N.eqb kEND Pos.eqb]. fin.
       + (* chat, the tool messages of the previous round *)
-        change (rexec rdn ?s [kChat] (RTools rs d)) with (exec_chat modifier md (map tool_msg rs) s).
-        unfold exec_chat. cbn [rs_script rs_messages rs_rdid rs_inputs rs_rounds rs_emits].
-        cbn [agent_loop s_messages s_rdid].
+        change (rexec rdn ?s [kChat] (RTools o rs d)) with (exec_chat modifier md (map tool_msg rs) s).
+        unfold exec_chat. cbn [rs_script rs_messages rs_rd rs_inputs rs_rounds rs_emits].
+        cbn [agent_loop s_messages s_rd].
         destruct sc as [|[|content calls chunks] sc']; try (fin; fail).
         destruct (delivered md content calls chunks) as [m|] eqn:Hd; [|fin; fail].
         cbn [fst snd].
@@ -229,42 +231,45 @@ Section Refine.
         * rewrite calc_chat_tools by exact Hc. cbn [nlist_get N.eqb kEND kTools Pos.eqb].
           pose proof (IH (S n) (TTools m) kTools (RModel (emitted_chunks md content calls chunks) m)
                          sc' (msgs ++ map tool_msg rs)%list rdid (ins ++ [modifier (msgs ++ map tool_msg rs)])%list rnds (ems ++ [m])%list
-                         (lg ++ [step_entry rval [] [(kChat, RTools rs d)]])%list Hn' (rel_tools rdn _ _)) as H1.
+                         (lg ++ [step_entry rval [] [(kChat, RTools o rs d)]])%list Hn' (rel_tools rdn _ _)) as H1.
           unfold ls_of in H1. rewrite H1. fin.
         * rewrite calc_chat_end by exact Hc. cbn [nlist_get N.eqb kEND Pos.eqb]. fin.
       + (* tools *)
-        change (rexec rdn ?s [kTools] (RModel chunks m)) with (exec_tools tn rd rdn visible m s).
-        unfold exec_tools. cbn [rs_script rs_messages rs_rdid rs_inputs rs_rounds rs_emits].
-        cbn [agent_loop s_messages s_rdid].
-        destruct (tn (m_calls m)) as [results|e|] eqn:Et;
+        change (rexec rdn ?s [kTools] (RModel chunks m)) with (exec_tools tn tns rd rdn visible md m s).
+        unfold exec_tools. cbn [rs_script rs_messages rs_rd rs_inputs rs_rounds rs_emits].
+        cbn [agent_loop s_messages s_rd].
+        destruct (tools_out tn tns md (m_calls m)) as [o|e|] eqn:Et;
+          [| cbn [fst snd]; unfold trace_of, out_of; cbn [fst snd option_map]; rewrite out_of_tools_err; fin; fail | fin; fail].
+        destruct (tout_results o) as [results|e|] eqn:Er;
           [| cbn [fst snd]; unfold trace_of, out_of; cbn [fst snd option_map]; rewrite out_of_tools_err; fin; fail | fin; fail].
         cbn [fst snd].
         destruct rdn.
         * rewrite calc_tools_branch by reflexivity.
-          destruct (String.eqb (rd_call_id rd (m_calls m)) "") eqn:Eid; cbn [negb].
-          -- cbn [nlist_get N.eqb kEND kChat Pos.eqb].
-             pose proof (IH (S n) (TChat (map tool_msg results)) kChat (RTools results false)
-                         sc (msgs ++ [m])%list (rd_call_id rd (m_calls m)) ins (rnds ++ [m_calls m])%list
-                         (ems ++ emitted_results visible (m_calls m) results)%list
-                         (lg ++ [step_entry rval [] [(kTools, RModel chunks m)]])%list Hn' (rel_chat_tools true _ _)) as H1.
-             unfold ls_of in H1. rewrite H1. fin.
+          destruct (rd_call_index rd (m_calls m)) as [ix|] eqn:Eid; cbn [is_some].
           -- cbn [nlist_get N.eqb kEND kDirect Pos.eqb].
-             pose proof (IH (S n) (TDirect results) kDirect (RTools results true)
-                         sc (msgs ++ [m])%list (rd_call_id rd (m_calls m)) ins (rnds ++ [m_calls m])%list
+             pose proof (IH (S n) (TDirect o) kDirect (RTools o results true)
+                         sc (msgs ++ [m])%list (Some ix) ins (rnds ++ [m_calls m])%list
                          (ems ++ emitted_results visible (m_calls m) results)%list
-                         (lg ++ [step_entry rval [] [(kTools, RModel chunks m)]])%list Hn' (rel_direct true _ _ eq_refl)) as H1.
+                         (lg ++ [step_entry rval [] [(kTools, RModel chunks m)]])%list Hn' (rel_direct true _ _ _ eq_refl)) as H1.
              unfold ls_of in H1. rewrite H1. fin.
-        * rewrite calc_tools_edge by reflexivity. cbn [nlist_get N.eqb kEND kChat Pos.eqb String.eqb negb].
-          pose proof (IH (S n) (TChat (map tool_msg results)) kChat (RTools results false)
-                         sc (msgs ++ [m])%list "" ins (rnds ++ [m_calls m])%list
+          -- cbn [nlist_get N.eqb kEND kChat Pos.eqb].
+             pose proof (IH (S n) (TChat (map tool_msg results)) kChat (RTools o results false)
+                         sc (msgs ++ [m])%list None ins (rnds ++ [m_calls m])%list
                          (ems ++ emitted_results visible (m_calls m) results)%list
-                         (lg ++ [step_entry rval [] [(kTools, RModel chunks m)]])%list Hn' (rel_chat_tools false _ _)) as H1.
+                         (lg ++ [step_entry rval [] [(kTools, RModel chunks m)]])%list Hn' (rel_chat_tools true _ _ _)) as H1.
+             unfold ls_of in H1. rewrite H1. fin.
+        * rewrite calc_tools_edge by reflexivity. cbn [nlist_get N.eqb kEND kChat Pos.eqb is_some].
+          pose proof (IH (S n) (TChat (map tool_msg results)) kChat (RTools o results false)
+                         sc (msgs ++ [m])%list None ins (rnds ++ [m_calls m])%list
+                         (ems ++ emitted_results visible (m_calls m) results)%list
+                         (lg ++ [step_entry rval [] [(kTools, RModel chunks m)]])%list Hn' (rel_chat_tools false _ _ _)) as H1.
           unfold ls_of in H1. rewrite H1. fin.
       + (* direct_return *)
-        change (rexec true ?s [kDirect] (RTools rs d)) with (exec_direct rs s).
-        unfold exec_direct. cbn [rs_script rs_messages rs_rdid rs_inputs rs_rounds rs_emits].
-        cbn [agent_loop s_messages s_rdid].
-        destruct (find_tcid rdid rs) as [r|]; [|fin; fail].
+        change (rexec true ?s [kDirect] (RTools o rs d)) with (exec_direct o s).
+        unfold exec_direct. cbn [rs_script rs_messages rs_rd rs_inputs rs_rounds rs_emits].
+        cbn [agent_loop s_messages s_rd].
+        destruct rdid as [ix|]; [|fin; fail].
+        destruct (tout_direct ix o) as [r|]; [|fin; fail].
         cbn [fst snd]. rewrite calc_direct by auto. cbn [nlist_get N.eqb kEND Pos.eqb]. fin.
   Qed.
 End Refine.
@@ -277,9 +282,9 @@ Proof. intros [|] [|n]; reflexivity. Qed.
 Lemma tr_pre_nil : forall t, tr_pre [] [] [] t = t.
 Proof. intros [i r e o]. reflexivity. Qed.
 
-Theorem engine_refines_agent : forall tn rd rdn modifier visible checker md max_step script input,
-  engine_trace tn rd rdn modifier visible checker md max_step script input
-  = Some (agent_run tn rd rdn modifier visible checker md (effective_max_steps max_step rdn) script input).
+Theorem engine_refines_agent : forall tn tns rd rdn modifier visible checker md max_step script input,
+  engine_trace tn tns rd rdn modifier visible checker md max_step script input
+  = Some (agent_run tn tns rd rdn modifier visible checker md (effective_max_steps max_step rdn) script input).
 Proof.
   intros. unfold engine_trace, engine_run, Graph.run, run_nest, run_flat.
   assert (Hi : init_chans rval (react_graph rdn max_step) = Ok (E rdn max_step)) by reflexivity.
@@ -287,9 +292,9 @@ Proof.
   unfold loop_fuel. cbn [g_mode react_graph]. unfold init_state, init_rstate.
   match goal with
   | |- trace_of (iterate _ _ _ _ ?sub _ _ _ _ _) = _ =>
-      pose proof (iterate_refines tn rd modifier visible checker md max_step sub
+      pose proof (iterate_refines tn tns rd modifier visible checker md max_step sub
                     rdn (max_steps (react_graph rdn max_step)) 0 (TChat input) kChat (RIn input)
-                    script [] "" [] [] [] [run_marker rval []] eq_refl (rel_chat_in rdn input)) as H
+                    script [] None [] [] [] [run_marker rval []] eq_refl (rel_chat_in rdn input)) as H
   end.
   unfold ls_of in H. rewrite tr_pre_nil in H. rewrite max_steps_react in H at 2.
   unfold agent_run. rewrite <- H. reflexivity.
@@ -301,6 +306,7 @@ Local Open Scope string_scope.
 (* ---- the supersteps of the run: one node each, chat and tools alternating ------------------ *)
 Section Supersteps.
   Variable tn : list call -> res (list tmsg).
+  Variable tns : list call -> res (list string * list emitted).
   Variable rd : string -> bool.
   Variable rdn : bool.
   Variable modifier : list msg -> list msg.
@@ -312,7 +318,7 @@ Section Supersteps.
 
   Notation ops := (react_ops checker).
   Notation g := (react_graph rdn max_step).
-  Notation rexec := (react_exec tn rd rdn modifier visible md).
+  Notation rexec := (react_exec tn tns rd rdn modifier visible md).
   Notation iter := (iterate rval rstate ops rexec sub sched_first [] g).
   Notation E := (E rdn max_step).
 
@@ -335,11 +341,11 @@ Section Supersteps.
       - apply andb_true_iff in Hk. destruct Hk as [Hr Hk]. apply N.eqb_eq in Hk. auto. }
     unfold follows. unfold Proofs.ReactGraph.E.
     destruct Hcases as [Hk1|[Hk1|[Hr Hk1]]]; subst k.
-    - destruct o as [ms|chunks m|rs d|m]; try destruct (checker chunks) eqn:Hc; try destruct d; destruct rdn;
+    - destruct o as [ms|chunks m|o rs d|m]; try destruct (checker chunks) eqn:Hc; try destruct d; destruct rdn;
         eexists; (split; [cbv -[N.modulo]; try rewrite Hc; vm_compute; reflexivity|]); vm_compute; auto.
-    - destruct o as [ms|chunks m|rs d|m]; try destruct (checker chunks) eqn:Hc; try destruct d; destruct rdn;
+    - destruct o as [ms|chunks m|o rs d|m]; try destruct (checker chunks) eqn:Hc; try destruct d; destruct rdn;
         eexists; (split; [cbv -[N.modulo]; try rewrite Hc; vm_compute; reflexivity|]); auto 10.
-    - rewrite Hr. destruct o as [ms|chunks m|rs d|m]; try destruct (checker chunks) eqn:Hc; try destruct d;
+    - rewrite Hr. destruct o as [ms|chunks m|o rs d|m]; try destruct (checker chunks) eqn:Hc; try destruct d;
         eexists; (split; [cbv -[N.modulo]; try rewrite Hc; vm_compute; reflexivity|]); auto.
   Qed.
 
@@ -400,9 +406,9 @@ End Supersteps.
 (* every superstep of the engine's run of the ReAct graph executes exactly one node; the first is
    chat, after chat comes tools (or the run ends), after tools comes chat — or direct_return, only
    with a return-directly set, after which the run ends *)
-Theorem engine_supersteps_alternate : forall tn rd rdn modifier visible checker md max_step script input,
+Theorem engine_supersteps_alternate : forall tn tns rd rdn modifier visible checker md max_step script input,
   exists ks,
-    engine_supersteps tn rd rdn modifier visible checker md max_step script input
+    engine_supersteps tn tns rd rdn modifier visible checker md max_step script input
     = [] :: map (fun k => [k]) ks
     /\ chain_ok rdn kChat ks.
 Proof.
@@ -412,7 +418,7 @@ Proof.
   unfold loop_fuel. cbn [g_mode react_graph]. unfold init_state.
   match goal with
   | |- exists ks, nodes_log (outcome_log _ (fst (iterate _ _ _ _ ?sub _ _ _ _ _))) = _ /\ _ =>
-      destruct (iterate_log tn rd rdn modifier visible checker md max_step sub
+      destruct (iterate_log tn tns rd rdn modifier visible checker md max_step sub
                   (max_steps (react_graph rdn max_step)) 0 kChat (RIn input) (init_rstate script)
                   [run_marker rval []] eq_refl eq_refl) as [ks [Hl Hc]]
   end.
